@@ -100,7 +100,31 @@ namespace plan
       std::string name = "rr" + std::to_string(m.rr_names.size());
       m.rr_names.push_back(name);
       m.rr_caps.push_back(cap);
-      decl("ReusableResource " + name + " = new ReusableResource(" + qtext(cap) + ");");
+      m.rr_cap_var.push_back("");
+      std::string cap_text = qtext(cap);
+      if ((op.arg(1) & 1) && !m.reals.empty() && cap >= 1)
+      { // the capacity is an expression: `c - x` with 0 <= x <= c - 1 (its value may still move while the search goes on)
+        std::vector<std::string> xs;
+        for (size_t i = 0; i < m.reals.size(); ++i)
+          if (real_unit[i] <= m.unit)
+            xs.push_back(m.reals[i]);
+        if (!xs.empty())
+        {
+          const std::string x = xs[modn(op.arg(1) >> 1, xs.size())];
+          m.rr_cap_var.back() = x;
+          cap_text = qtext(cap) + " - " + x;
+          auto lo = std::make_shared<B>(), hi = std::make_shared<B>();
+          lo->k = hi->k = B::REL;
+          lo->rel = GEQ;
+          lo->l.t.push_back({mpq_class(1), Path{x}});
+          hi->rel = LEQ;
+          hi->l.t.push_back({mpq_class(1), Path{x}});
+          hi->r.k = cap - 1;
+          assert_stmt(lo);
+          assert_stmt(hi);
+        }
+      }
+      decl("ReusableResource " + name + " = new ReusableResource(" + cap_text + ");");
     }
     else if (n == "use")
     {
@@ -218,7 +242,7 @@ namespace plan
         }
         std::vector<int> gp;
         for (size_t i = 0; i < m.preds.size(); ++i)
-          if (m.preds[i].cls < 0)
+          if (m.preds[i].cls < 0 && !m.any_param_fixed(static_cast<int>(i)))
             gp.push_back(static_cast<int>(i));
         if (!gp.empty() && (use & 6) == 2)
         { // the disjunct states a goal on a global predicate, its first parameter (if any) a small constant: the graph
@@ -271,7 +295,7 @@ namespace plan
       // the pinned atom is a goal of its own, on a temporal global predicate, with no argument given
       std::vector<int> tp;
       for (size_t i = 0; i < m.preds.size(); ++i)
-        if (m.preds[i].cls < 0 && (p_interval(m.preds[i]) || p_impulse(m.preds[i])))
+        if (m.preds[i].cls < 0 && (p_interval(m.preds[i]) || p_impulse(m.preds[i])) && !m.any_param_fixed(static_cast<int>(i)))
           tp.push_back(static_cast<int>(i));
       if (tp.empty())
         return;
@@ -313,7 +337,7 @@ namespace plan
       std::string t1 = " " + btext(i1->b) + ";";
       std::vector<int> gp, tgp;
       for (size_t i = 0; i < m.preds.size(); ++i)
-        if (m.preds[i].cls < 0)
+        if (m.preds[i].cls < 0 && !m.any_param_fixed(static_cast<int>(i)))
         {
           gp.push_back(static_cast<int>(i));
           if (p_interval(m.preds[i]) || p_impulse(m.preds[i]))
